@@ -347,7 +347,21 @@ PENDING_REASON = ("check not built yet at this commit (work in progress; the des
                   "the property is expected to be claimed once its model, theorems and correspondence exist)")
 
 
+def load_note_claims():
+    """claims written by the builders of single properties: notes/<Cxx>-claim.json (text, note, technique, design_ref)"""
+    import glob
+    for f in sorted(glob.glob(os.path.join(HERE, "notes", "C??-claim.json"))):
+        p = os.path.basename(f)[:3]
+        if p in CLAIMED:
+            continue
+        d = json.load(open(f))
+        if not os.path.exists(os.path.join(HERE, "coq", "props", p + ".v")) or not os.path.exists(os.path.join(HERE, "harness", p.lower() + ".py")):
+            continue
+        CLAIMED[p] = dict(text=d["text"], note=d["note"], technique=d["technique"], design_ref=d.get("design_ref", "DESIGN.md 5/" + p))
+
+
 def main():
+    load_note_claims()
     checks = []
     for p in ALL:
         if p not in CLAIMED:
